@@ -227,8 +227,7 @@ type Connection struct {
 	healthCheckCtx     context.Context
 	healthCheckQuit    context.CancelFunc
 	healthCheckDone    chan struct{}
-	// healthCheckPinging is set while the health checker is inside its own ping.
-	healthCheckPinging atomic.Bool
+	healthCheckPinging atomic.Bool // set while the health checker is inside its own ping
 	healthCheckHistory *healthHistory
 
 	// lastActivity{Read,Write} is used to track how long the connection has been
